@@ -54,6 +54,7 @@ TEvent ==
          [] E.e = "api" /\ E.what = "up"   -> ApiUpEff /\ Note(tv \cup ApiUpViol)
          [] E.e = "api" /\ E.what = "down" -> ApiDownEff /\ Note(tv)
          [] E.e = "teardown" -> TeardownEff(E.code) /\ Note(tv)
+         [] E.e = "remove"   -> TeardownEff(3) /\ Note(tv)          \* the operator removes the neighbour: an end it asked for
          [] OTHER            -> Stutter /\ Note(tv)
 
 TNext == l <= Len(Tr) /\ l' = l + 1 /\ (TBegin \/ TEvent)
